@@ -575,10 +575,10 @@ Fixpoint rd_orc_lists (n : nat) (t : list Z) : list (list TlsRecv.orc) * list Z 
       end
   end.
 
-Definition exec_packet (t : list Z) : list Z :=
+(* the abstract state from is_client to the tls.Context (oracle lists empty) *)
+Definition rd_cst (t : list Z) : option (cst * list Z) :=
   match t with
-  | patched :: epoch :: creq :: rbits ::
-    is_client :: md_used :: md_value :: ms_bidi :: ms_uni :: msd_br :: msd_uni :: dgram_max ::
+  | is_client :: md_used :: md_value :: ms_bidi :: ms_uni :: msd_br :: msd_uni :: dgram_max ::
     host_seq :: ctx_cid :: rlimit :: peer_seq :: peer_rpt :: pending :: cid_limit :: t =>
       let '(host_cids, t) := tk_list t in
       let '(avail, t) := tk_list t in
@@ -593,17 +593,28 @@ Definition exec_packet (t : list Z) : list Z :=
           let '(ch, t) := rd_recv t in
           let '(c1, t) := rd_recv t in
           match TlsRecv.rd_cfg_ctx t with
-          | Some (g, c, ncalls :: t) =>
-              let '(orcs, t) := rd_orc_lists (Z.to_nat ncalls) t in
-              let '(payload, _) := tk_list t in
-              let st := mkCst (z2b is_client) md_used md_value ms_bidi ms_uni msd_br msd_uni dgram_max
-                              host_seq ctx_cid rlimit peer_seq peer_rpt pending cid_limit
-                              (mkTls g c orcs) host_cids avail seen chal fin streams
-                              ci ch c1 None unsent in
-              out_outcome (receive_packet (z2b patched) st epoch (z2b creq) (z2b rbits) payload)
-          | _ => []
+          | Some (g, c, t) =>
+              Some (mkCst (z2b is_client) md_used md_value ms_bidi ms_uni msd_br msd_uni dgram_max
+                          host_seq ctx_cid rlimit peer_seq peer_rpt pending cid_limit
+                          (mkTls g c []) host_cids avail seen chal fin streams
+                          ci ch c1 None unsent, t)
+          | None => None
           end
-      | [] => []
+      | [] => None
+      end
+  | _ => None
+  end.
+
+Definition exec_packet (t : list Z) : list Z :=
+  match t with
+  | patched :: epoch :: creq :: rbits :: t =>
+      match rd_cst t with
+      | Some (st, ncalls :: t) =>
+          let '(orcs, t) := rd_orc_lists (Z.to_nat ncalls) t in
+          let '(payload, _) := tk_list t in
+          let st := set_crypto st (-1) recv_init (mkTls (ts_cfg (c_tls st)) (ts_ctx (c_tls st)) orcs) in
+          out_outcome (receive_packet (z2b patched) st epoch (z2b creq) (z2b rbits) payload)
+      | _ => []
       end
   | _ => []
   end.
